@@ -63,12 +63,14 @@ VARIABLES L, bsz, mode, b0,
           erep,      \* [sv, norm]: state version the last tot_en was computed from; was that state normalised
           energies,  \* DMRG.energies as a sequence of such stamps
           chk,       \* verdicts of the checks made when the last local problem / tot_en was formed
+          incall,    \* a DMRG.solve() call is in progress (its local `previous_direction` is alive)
+          tolbig,    \* this solve() call has a huge tol: it stops as soon as two sweep energies exist
           pad,       \* the bond expansion of this sweep broke the canonical form and nothing repaired it (KF-C10-3)
           wire,      \* which index family each layer of the energy network TN_energy = b | ham | k carries
           script, sites  \* history (for the replay cases)
 
 vars == <<L, bsz, mode, b0, phase, nsw, prev, dir, canon, cap, capmax, todo, done, ver, sver, form, bond,
-          me, erep, energies, chk, pad, wire, script, sites>>
+          me, erep, energies, chk, incall, tolbig, pad, wire, script, sites>>
 
 Sites == 0..(L - 1)
 Stop == L - bsz + 1                      \* the open-boundary segment is range(0, L - bsz + 1)
@@ -161,16 +163,26 @@ Init ==
   /\ form = [s \in Sites |-> "X"]
   /\ bond = [j \in 1..(L - 1) |-> b0]
   /\ me = NoME /\ erep = [sv |-> -1, norm |-> TRUE] /\ energies = <<>> /\ chk = ChkOK
-  /\ pad = FALSE
+  /\ pad = FALSE /\ incall = FALSE /\ tolbig = FALSE
   /\ wire = Align(<<"vec", "op", "vec">>)        \* DMRG.__init__: self._k.align_(self.ham, self._b)
   /\ script = <<>> /\ sites = <<>>
 
-\* DMRG.solve picks (direction, max_bond) from the schedules and canonize = not alternate;
-\* a manual DMRG.sweep(direction, canonize=True, max_bond=...) is also legal at any time.
-StartSweep(d, c, cp) ==
+\* DMRG.solve picks (direction, max_bond) from the schedules and canonize = not alternate, where "alternate" is
+\* judged against `previous_direction`, a LOCAL variable of solve() that starts as "0" in every call: the first
+\* sweep of every call canonizes.  Several solve() calls may follow each other on one object (a call ends by
+\* convergence or by exhausting max_sweeps).  (Mutant "stale_prev": the direction is kept on the object across
+\* calls, but a call that ends by convergence leaves before updating it.)
+\* A manual DMRG.sweep(direction, canonize=True, max_bond=...) is also legal at any time.
+StartSweep(d, c, cp, tb) ==
   /\ phase = "idle" /\ nsw < MaxSweeps
-  /\ IF Mutant = "no_canon" THEN c = FALSE
-     ELSE c \in (IF mode = "solve" THEN {NeedCanonize(d, prev)} ELSE {NeedCanonize(d, prev), TRUE})
+  /\ LET newcall == mode = "solve" /\ ~incall
+         ruleprev == IF newcall /\ Mutant # "stale_prev" THEN "0" ELSE prev
+     IN /\ IF Mutant = "no_canon" THEN c = FALSE
+           ELSE c \in (IF mode = "solve" THEN {NeedCanonize(d, ruleprev)} ELSE {NeedCanonize(d, prev), TRUE})
+        /\ tb = (IF newcall THEN tb ELSE tolbig)          \* tol is a parameter of the call, not of the sweep
+        /\ (mode # "solve" => tb = FALSE)
+        /\ tolbig' = tb /\ incall' = (mode = "solve")
+        /\ script' = Append(script, [dir |-> d, canon |-> c, cap |-> cp, newcall |-> newcall, tb |-> tb])
   /\ bsz = 1 => cp >= capmax                \* one-site DMRG: non-decreasing schedules (documented meaning)
   /\ LET \* solve: expand_bond_dimension(max_bond) for one-site DMRG (pads every bond, random noise 1e-6)
          expand == bsz = 1 /\ mode = "solve"
@@ -199,14 +211,13 @@ StartSweep(d, c, cp) ==
                     ELSE SweepSites(d, L, bsz))
   /\ dir' = d /\ canon' = c /\ cap' = cp /\ capmax' = Max2(capmax, cp)
   /\ done' = <<>> /\ phase' = "sweep"
-  /\ script' = Append(script, [dir |-> d, canon |-> c, cap |-> cp])
   /\ UNCHANGED <<wire, L, bsz, mode, b0, nsw, prev, sver, erep, energies, chk, sites>>  \* pad is set above
 
 \* one step of move_to(i) towards the next site of the sweep
 Move ==
   /\ phase = "sweep" /\ todo # <<>> /\ ~me.err /\ me.pos # Head(todo)
   /\ me' = IF Head(todo) < me.pos THEN MoveLeft(me, ver) ELSE MoveRight(me, ver)
-  /\ UNCHANGED <<pad, wire, L, bsz, mode, b0, phase, nsw, prev, dir, canon, cap, capmax, todo, done, ver, sver, form, bond,
+  /\ UNCHANGED <<incall, tolbig, pad, wire, L, bsz, mode, b0, phase, nsw, prev, dir, canon, cap, capmax, todo, done, ver, sver, form, bond,
                  erep, energies, chk, script, sites>>
 
 \* _update_local_state_1site(i): eigen-solve on envs[i], insert into k[i]/b[i], tot_en = eff_ham ^ all,
@@ -232,7 +243,7 @@ LocalUpdate1 ==
                    ELSE IF goL THEN [bond EXCEPT ![i] = Min2(bond[i], D * BR(bond, i))]
                    ELSE bond
         /\ done' = Append(done, i) /\ todo' = Tail(todo)
-  /\ UNCHANGED <<pad, wire, L, bsz, mode, b0, phase, nsw, prev, dir, canon, cap, capmax, me, energies, script, sites>>
+  /\ UNCHANGED <<incall, tolbig, pad, wire, L, bsz, mode, b0, phase, nsw, prev, dir, canon, cap, capmax, me, energies, script, sites>>
 
 \* _update_local_state_2site(i): eigen-solve for sites (i, i+1), split with absorb = direction,
 \* max_bond = cap, no renormalisation; tot_en = eff_ham ^ all afterwards
@@ -253,25 +264,30 @@ LocalUpdate2 ==
                    ELSE [form EXCEPT ![i] = "X", ![i + 1] = "R"]
         /\ bond' = [bond EXCEPT ![i + 1] = r]
         /\ done' = Append(done, i) /\ todo' = Tail(todo)
-  /\ UNCHANGED <<pad, wire, L, bsz, mode, b0, phase, nsw, prev, dir, canon, cap, capmax, me, energies, script, sites>>
+  /\ UNCHANGED <<incall, tolbig, pad, wire, L, bsz, mode, b0, phase, nsw, prev, dir, canon, cap, capmax, me, energies, script, sites>>
 
 \* end of DMRG.sweep / the bookkeeping of DMRG.solve: energies.append(tot_ens[-1])
+\* _check_convergence needs two entries of `energies` (of the whole object); on convergence solve() leaves the
+\* loop BEFORE `previous_direction = direction`; otherwise the call goes on or has exhausted max_sweeps
 EndSweep ==
   /\ phase = "sweep" /\ todo = <<>>
   /\ energies' = Append(energies, erep)
-  /\ nsw' = nsw + 1 /\ prev' = dir /\ phase' = "idle"
+  /\ nsw' = nsw + 1 /\ phase' = "idle"
+  /\ LET conv == mode = "solve" /\ tolbig /\ Len(energies) + 1 >= 2 IN
+     IF conv THEN prev' = prev /\ incall' = FALSE
+     ELSE prev' = dir /\ incall' \in (IF mode = "solve" THEN BOOLEAN ELSE {FALSE})
   /\ sites' = Append(sites, done)
-  /\ UNCHANGED <<pad, wire, L, bsz, mode, b0, dir, canon, cap, capmax, todo, done, ver, sver, form, bond, me, erep, chk, script>>
+  /\ UNCHANGED <<tolbig, pad, wire, L, bsz, mode, b0, dir, canon, cap, capmax, todo, done, ver, sver, form, bond, me, erep, chk, script>>
 
 Finish ==
   /\ phase = "idle" /\ nsw >= 1
   /\ phase' = "done"
   /\ Emit => PrintT(<<"QVJSON", ToJson([L |-> L, bsz |-> bsz, mode |-> mode, b0 |-> b0, script |-> script,
                                          sites |-> sites, bonds |-> [j \in 1..(L - 1) |-> bond[j]]])>>)
-  /\ UNCHANGED <<pad, wire, L, bsz, mode, b0, nsw, prev, dir, canon, cap, capmax, todo, done, ver, sver, form, bond,
+  /\ UNCHANGED <<incall, tolbig, pad, wire, L, bsz, mode, b0, nsw, prev, dir, canon, cap, capmax, todo, done, ver, sver, form, bond,
                  me, erep, energies, chk, script, sites>>
 
-Next == \/ \E d \in {"R", "L"}, c \in BOOLEAN, cp \in Caps : StartSweep(d, c, cp)
+Next == \/ \E d \in {"R", "L"}, c \in BOOLEAN, cp \in Caps, tb \in BOOLEAN : StartSweep(d, c, cp, tb)
         \/ Move \/ LocalUpdate1 \/ LocalUpdate2 \/ EndSweep \/ Finish
 
 Spec == Init /\ [][Next]_vars
